@@ -118,7 +118,7 @@ Print Assumptions C11_original_unchanged.
 (* ---------------------------------------------------------------- copy_with *)
 (* FULL STATEMENT (false for init=False fields, see C11_copy_init_false_refuted): for EVERY field f of the
    class, getattr copy f = kw f where given, else the very object the original holds.
-   Proved for every field that takes part in __init__ and that no user-written __post_init__ of the hierarchy assigns
+   Proved for every field that takes part in __init__ and that no user-written __post_init__ running for the class assigns
    (a hook that assigns a field decides its value itself: C11_hook_assigned_field_example).
    That copy_with RETURNS for every well-formed request is C11_copy_succeeds below. *)
 Theorem C11_copy_fields_partial : forall check C r kw st st' r',
@@ -293,29 +293,73 @@ Qed.
 Print Assumptions C11_copy_succeeds.
 
 (* ---------------------------------------------------------------- __eq__, __hash__, ordering *)
-(* whatever Python does with two tuples (tuple_cmp, tuple_hash arbitrary): for two instances of the same
-   decorated class, == is the comparison of the tuples of fields; with order=True so are < <= > >=;
-   hash is the hash of the tuple; against an instance of another class every comparison method returns
-   NotImplemented *)
-Theorem C11_eq_hash_order_tuple : forall R (tuple_cmp : cmpop -> heap -> list value -> list value -> outcome R)
-    (tuple_hash : heap -> list value -> outcome R) L rest h r1 r2 t1 t2,
-  decorated L = true ->
-  fields_tuple h r1 (dc_fields (L :: rest)) = Some t1 -> fields_tuple h r2 (dc_fields (L :: rest)) = Some t2 ->
-  (class_of h r2 = Some (class_id (L :: rest)) ->
-     dc_cmp P R tuple_cmp OpEq (L :: rest) h r1 r2 = bind (tuple_cmp OpEq h t1 t2) (fun x => Ok (ViaTuple x)) /\
-     (eff_order P L = true -> forall op,
-        dc_cmp P R tuple_cmp op (L :: rest) h r1 r2 = bind (tuple_cmp op h t1 t2) (fun x => Ok (ViaTuple x)))) /\
-  (forall c2 op, class_of h r2 = Some c2 -> c2 <> class_id (L :: rest) ->
-     dc_cmp P R tuple_cmp op (L :: rest) h r1 r2 = Ok NotImpl) /\
-  dc_hash P R tuple_hash (L :: rest) h r1 = tuple_hash h t1.
+(* whatever Python does with two tuples (tuple_cmp, tuple_hash arbitrary).  For EVERY class C with a @frozen_dataclass class
+   in its MRO (nearest_deco C = Some D: decorated classes and their undecorated subclasses alike): for two instances of C,
+   == is the comparison of the tuples of (compare) fields and hash is the hash of that tuple; against an instance of another
+   class every comparison method returns NotImplemented *)
+Theorem C11_eq_hash_tuple : forall R (tuple_cmp : cmpop -> heap -> list value -> list value -> outcome R)
+    (tuple_hash : heap -> list value -> outcome R) C D h r1 r2 t1 t2,
+  nearest_deco C = Some D ->
+  fields_tuple h r1 (dc_fields C) = Some t1 -> fields_tuple h r2 (dc_fields C) = Some t2 ->
+  (class_of h r2 = Some (class_id C) ->
+     dc_cmp P R tuple_cmp OpEq C h r1 r2 = bind (tuple_cmp OpEq h t1 t2) (fun x => Ok (ViaTuple x))) /\
+  (forall c2 op, class_of h r2 = Some c2 -> c2 <> class_id C -> dc_cmp P R tuple_cmp op C h r1 r2 = Ok NotImpl) /\
+  dc_hash P R tuple_hash C h r1 = tuple_hash h t1.
 Proof.
-  rewrite P_ref. intros R tuple_cmp tuple_hash L rest h r1 r2 t1 t2 HL H1 H2. split; [|split].
-  - intro Hc. split; [now apply dc_cmp_eq|]. intros Ho op. destruct op; try (apply dc_cmp_order; try assumption; discriminate).
-    now apply dc_cmp_eq.
+  rewrite P_ref. intros R tuple_cmp tuple_hash C D h r1 r2 t1 t2 HD H1 H2. split; [|split].
+  - intro Hc. eapply dc_cmp_eq_gen; eassumption.
   - intros c2 op Hc Hne. eapply dc_cmp_other_class; eassumption.
-  - now apply dc_hash_tuple.
+  - eapply dc_hash_gen; eassumption.
 Qed.
-Print Assumptions C11_eq_hash_order_tuple.
+Print Assumptions C11_eq_hash_tuple.
+
+(* FULL STATEMENT (false, see C11_inherited_order_refuted): for every class C with a class decorated with order=True in its
+   MRO, < <= > >= on two instances of C are the comparisons of the tuples of the fields of C.
+   Proved through the class that DEFINES the order methods (order_layer: the first class along the MRO decorated with
+   order=True) under the exact guard that it has the fields of C - in particular whenever the instance's own class, or the
+   nearest decorated class of an undecorated subclass, is the one decorated with order=True *)
+Theorem C11_order_tuple_partial : forall R (tuple_cmp : cmpop -> heap -> list value -> list value -> outcome R) C D' h r1 r2 t1 t2 op,
+  order_layer P C = Some D' -> dc_fields D' = dc_fields C -> op <> OpEq ->
+  class_of h r2 = Some (class_id C) ->
+  fields_tuple h r1 (dc_fields C) = Some t1 -> fields_tuple h r2 (dc_fields C) = Some t2 ->
+  dc_cmp P R tuple_cmp op C h r1 r2 = bind (tuple_cmp op h t1 t2) (fun x => Ok (ViaTuple x)).
+Proof. rewrite P_ref. intros. eapply dc_cmp_order_gen; eassumption. Qed.
+Print Assumptions C11_order_tuple_partial.
+
+(* the guard holds when the class itself is decorated with order=True, and for undecorated subclasses of such a class *)
+Theorem C11_order_guard_classes : forall L rest,
+  (decorated L = true -> eff_order P L = true ->
+     order_layer P (L :: rest) = Some (L :: rest) /\ dc_fields (L :: rest) = dc_fields (L :: rest)) /\
+  (decorated L = false -> forall D', order_layer P rest = Some D' -> dc_fields D' = dc_fields rest ->
+     order_layer P (L :: rest) = Some D' /\ dc_fields D' = dc_fields (L :: rest)).
+Proof.
+  intros L rest. split.
+  - intros HL Ho. simpl. now rewrite HL, Ho.
+  - intros HL D' Ho Hf. simpl. rewrite HL. simpl. now split.
+Qed.
+Print Assumptions C11_order_guard_classes.
+
+(* outside the guard the statement is false: a subclass decorated WITHOUT order=True that adds a field inherits the order
+   methods of its order=True parent, which compare the parent's fields only.
+   @frozen_dataclass(order=True) class A: x: int;  @frozen_dataclass class OC(A): z: int = 0
+   a = OC(x=1, z=5), b = OC(x=1, z=9):  a < b compares (1,) with (1,) although the tuples of fields are (1, 5) and (1, 9)
+   (so a < b is False, a <= b and b <= a are True, a == b is False).  Replayed on the real code (finding C11-inherited-order) *)
+Definition io_A : layer := mkLayer 1 (Some (mkDeco false [(POrder, true)])) [mkField 0 0 DNone true true] None.
+Definition io_OC : layer := mkLayer 2 (Some (mkDeco false [])) [mkField 1 1 (DVal (VAtom 0)) true true] None.
+Definition io_heap : heap := [mkObj (KData 2) [] [(0, VAtom 1); (1, VAtom 5)]; mkObj (KData 2) [] [(0, VAtom 1); (1, VAtom 9)]].
+Theorem C11_inherited_order_refuted :
+  let C := [io_OC; io_A] in let pair := fun (_ : cmpop) (_ : heap) a b => Ok (a, b) in
+  order_layer P C = Some [io_A] /\ eff_order P io_OC = false /\
+  fields_tuple io_heap 0 (dc_fields C) = Some [VAtom 1; VAtom 5] /\
+  fields_tuple io_heap 1 (dc_fields C) = Some [VAtom 1; VAtom 9] /\
+  (forall op, op <> OpEq ->
+     dc_cmp P (list value * list value) pair op C io_heap 0 1 = Ok (ViaTuple ([VAtom 1], [VAtom 1]))) /\
+  dc_cmp P (list value * list value) pair OpEq C io_heap 0 1 = Ok (ViaTuple ([VAtom 1; VAtom 5], [VAtom 1; VAtom 9])).
+Proof.
+  cbv zeta. repeat split; try (vm_compute; reflexivity).
+  intros [] H; try (vm_compute; reflexivity). congruence.
+Qed.
+Print Assumptions C11_inherited_order_refuted.
 
 (* ---- non-vacuity: a slots class with a list field and an init=False field, an undecorated subclass;
    the hypotheses of the theorems hold and the operations really succeed *)
